@@ -170,13 +170,14 @@ where
             // println!("            cost: {}", cost);
             let vw_dist = dist + cost;
             // println!("            vu_dist: {}", vu_dist);
-            if D[w] == f64::MAX && (seen[w] == f64::MAX || vw_dist < seen[w]) {
+            if D[w] == f64::MAX && vw_dist != f64::MAX && (seen[w] == f64::MAX || vw_dist < seen[w])
+            {
                 // println!("            vu_dist < seen[u]");
                 seen[w] = vw_dist;
                 push_fringe_node(&mut fringe, v, w, vw_dist);
                 sigma[w] = 0.0;
                 P[w] = vec![v];
-            } else if vw_dist == seen[w] {
+            } else if vw_dist == seen[w] && vw_dist != f64::MAX {
                 sigma[w] += sigma[v];
                 P[w].push(v);
             }
